@@ -275,16 +275,44 @@ void harness_step(void)
 		for (unsigned int j = 0; j < i; j++)
 			VASSUME(GA[i].preference > GA[j].preference); /* already ascending and distinct */
 	}
-	int rc = rtr_mgr_init(&conf, GA, NG, 3600, 7200, 600, NULL, NULL, status_cb, NULL);
-
-	VASSUME(rc == RTR_SUCCESS);
-	/* arbitrary manager state */
+	/* the configuration is built directly (ascending preferences), not through rtr_mgr_init: the sorting
+	 * code is the subject of harness_config, here it would only enlarge the formula
+	 */
+	static struct rtr_mgr_config CONF;
+	static struct tommy_list_wrapper WR;
+	static struct rtr_mgr_group_node GN[NG];
+	static struct pfx_table PT;
+	static struct spki_table ST;
 	struct rtr_mgr_group *G[NG];
-	unsigned int gi = 0;
 
-	for (tommy_node *nd = tommy_list_head(&conf->groups->list); nd && gi < NG; nd = nd->next)
-		G[gi++] = ((struct rtr_mgr_group_node *)nd->data)->group;
-	VASSUME(gi == NG);
+	conf = &CONF;
+	conf->groups = &WR;
+	conf->len = NG;
+	conf->status_fp = status_cb;
+	conf->status_fp_data = NULL;
+	conf->pfx_table = &PT;
+	conf->spki_table = &ST;
+	pthread_rwlock_init(&conf->mutex, NULL);
+	tommy_list_init(&WR.list);
+	for (unsigned int i = 0; i < NG; i++) {
+		G[i] = &GA[i];
+		GN[i].group = G[i];
+		tommy_list_insert_tail(&WR.list, &GN[i].node, &GN[i]);
+		for (unsigned int j = 0; j < NS; j++) {
+			struct rtr_socket *s = G[i]->sockets[j];
+
+			s->pfx_table = &PT;
+			s->spki_table = &ST;
+			s->connection_state_fp = rtr_mgr_cb;
+			s->connection_state_fp_param_config = conf;
+			s->connection_state_fp_param_group = G[i];
+			s->request_session_id = true;
+			s->serial_number = 0;
+			s->version = 1;
+			s->is_resetting = false;
+			s->has_received_pdus = false;
+		}
+	}
 	for (unsigned int i = 0; i < NG; i++) {
 		uint8_t st = ND(uint8_t, "group.status");
 
@@ -315,7 +343,17 @@ void harness_step(void)
 	st_calls = 0;
 
 	/* one arbitrary socket state change, delivered the way rtr_change_socket_state does */
-	uint8_t g = ND(uint8_t, "event.group"), k = ND(uint8_t, "event.socket"), ns = ND(uint8_t, "event.state");
+	/* which socket changes state is fixed per job (-DEV_G, -DEV_K): a symbolic socket pointer makes every
+	 * access below it a case split over all sockets and groups
+	 */
+#ifndef EV_G
+#define EV_G 0
+#endif
+#ifndef EV_K
+#define EV_K 0
+#endif
+	const uint8_t g = EV_G, k = EV_K;
+	uint8_t ns = ND(uint8_t, "event.state");
 
 	VASSUME(g < NG && k < G[g]->sockets_len && ns <= RTR_SHUTDOWN);
 	struct rtr_socket *sock = G[g]->sockets[k];
@@ -328,14 +366,14 @@ void harness_step(void)
 	/* ---- oracles ---- */
 	bool became_est = G[g]->status == RTR_MGR_ESTABLISHED && pre_status[g] != RTR_MGR_ESTABLISHED;
 
-	if (G[g]->status == RTR_MGR_ESTABLISHED) {
+	if (became_est) {
 		for (unsigned int j = 0; j < NS; j++) {
 			if (j >= G[g]->sockets_len)
 				break;
 			const struct rtr_socket *s = G[g]->sockets[j];
 
 			VASSERT(s->last_update != 0 && (s->state == RTR_ESTABLISHED || s->state == RTR_RESET || s->state == RTR_SYNC),
-				"C15: a group is ESTABLISHED only when every one of its sockets holds synchronised data");
+				"C15: a group becomes ESTABLISHED only when every one of its sockets holds synchronised data");
 		}
 	}
 	for (unsigned int i = 0; i < NG; i++) {
